@@ -7,6 +7,8 @@ use serde_json::{Value, json};
 
 #[path = "boundary.rs"]
 pub mod boundary;
+#[path = "typeerrors.rs"]
+pub mod typeerrors;
 
 #[derive(Clone, Debug)]
 pub struct CaseFile {
@@ -739,9 +741,24 @@ fn cyclic_type_case(p: &mut Prng) -> Case {
 // ----------------------------------------------------------------- dispatch
 
 pub fn generate(p: &mut Prng, seeds: &Seeds) -> Case {
-    match p.below(22) {
+    // search mode after a broken obligation about the type checker's error paths: only the classes that reach them
+    if std::env::var("C06_FOCUS").as_deref() == Ok("typeerrors") {
+        return match p.below(8) {
+            0 | 1 | 2 => typeerrors::random_degenerate(p),
+            3 | 4 | 5 => typeerrors::random_method_receiver(p),
+            6 => {
+                let max = 1 + p.below(5) as u32;
+                let mut g = G { p, max };
+                Case::single("grammar (untyped)", g.program())
+            }
+            _ => cyclic_type_case(p),
+        };
+    }
+    match p.below(24) {
         20 => long_token_case(p),
         21 => cyclic_type_case(p),
+        22 => typeerrors::random_degenerate(p),
+        23 => typeerrors::random_method_receiver(p),
         0 | 1 | 2 => Case::single("random-tokens", random_tokens(p)),
         3 | 4 | 5 | 6 => {
             let s = p.pick(&seeds.programs[..]).clone();
